@@ -19,6 +19,13 @@ type Obs struct {
 	Steps     int    `json:"steps"`
 	// RegPanic: registration (SetComponents) panicked, i.e. duplicate name rejected.
 	RegPanic bool `json:"regPanic,omitempty"`
+	// RegOrder: program instances in the order in which they were handed to the container.
+	// RegOwner (after a rejected registration only): name -> the object the singleton registry
+	// holds under that name once the application has recovered the rejection.
+	// CfgLate: configuration fields of lazy components, read after the by-name lookups.
+	CfgLate  map[string]map[string]string `json:"cfgLate,omitempty"`
+	RegOrder []string          `json:"regOrder,omitempty"`
+	RegOwner map[string]string `json:"regOwner,omitempty"`
 
 	// wiring after Run: holder -> field -> target ids. "?": object unknown to the harness.
 	Points map[string]map[string][]string `json:"points,omitempty"`
